@@ -993,3 +993,35 @@ func (ts *TermStore) rebuild(t *Term, args []*Term) *Term {
 	}
 	return ts.App(t.op, t.sort, args...)
 }
+
+// Replace substitutes closed subterms (by identity) and re-simplifies.
+func (ts *TermStore) Replace(t *Term, m map[*Term]*Term) *Term {
+	memo := map[int]*Term{}
+	var rec func(t *Term) *Term
+	rec = func(t *Term) *Term {
+		if r, ok := m[t]; ok {
+			return r
+		}
+		if len(t.args) == 0 || t.kind == kQuant {
+			return t
+		}
+		if r, ok := memo[t.id]; ok {
+			return r
+		}
+		args := make([]*Term, len(t.args))
+		changed := false
+		for i, a := range t.args {
+			args[i] = rec(a)
+			if args[i] != a {
+				changed = true
+			}
+		}
+		r := t
+		if changed {
+			r = ts.rebuild(t, args)
+		}
+		memo[t.id] = r
+		return r
+	}
+	return rec(t)
+}
